@@ -48,7 +48,7 @@ NOT_DECIDED = ("*++b1",)     # backspace-skipping scans: while(--n1 > 0 && *++b1
 def run(rep, ctx):
     repo = ctx["repo"]
     fn = [SR2 + r"::.*", r"mp::Lget", r"mp::decstring", r"mp::Read", r"mp::[A-Za-z_0-9]+", r"mp::VecReader::.*",
-          r"mp::SuffixReader::.*"]
+          r"mp::SuffixReader::.*", r"mp::SOLHandler_Easy::(OnSuffix|NItemsMax)"]
     jobs = [dict(unit="nl-writer2/src/nl-solver.cc", fn=fn, repo=repo,
                  rec=[r"mp::SufHead", r"mp::SufRead", SR2])]
     F = Facts(export_many(jobs))
@@ -356,6 +356,43 @@ def run(rep, ctx):
                      "the scratch object checked by sufheadcheck is created for each suffix (or emptied before it is resized)",
                      "%s: the scratch object outlives one suffix and its buffer is only resized: bytes of an earlier suffix's name or table stay where the reader expects zero fill, "
                      "so a later suffix is delivered with a table or name longer than the file states" % g_.name)
+
+    # ---- H1: the library's own handler range-checks the item index of every suffix entry ------------------------------
+    h1 = rep.rule("C14.H1", "GUARD", "the library's solution handler stores a suffix entry only if its item index lies in [0, number of items): "
+                  "the index comes from the file and subscripts a vector of that size", floor=2)
+    ons = [g for g in funcs if g.qn == "mp::SOLHandler_Easy::OnSuffix"]
+    if not ons:
+        raise AnalysisBroken("C14.H1: SOLHandler_Easy::OnSuffix not found")
+    seen_h = set()
+    for g in sorted(ons, key=lambda x: x.full):
+        tag = "dbl" if "double" in g.full else "int"
+        if tag in seen_h:
+            continue
+        seen_h.add(tag)
+        subs = [n for n in g.walk() if n["k"] == "CXXOperatorCallExpr" and n.get("op") == "[]" and ".first" in render(call_args(n)[1])]
+        vec = [v for v in g.walk() if v["k"] == "VarDecl" and v.get("name") == "values" and "vector" in (v.get("ct") or v.get("t") or "")]
+        size_txt = None
+        if len(vec) == 1 and kids(vec[0]):
+            ca = [x for x in kids(strip(kids(vec[0])[0])) if x is not None and strip(x)["k"] != "CXXDefaultArgExpr"] if strip(kids(vec[0])[0])["k"] in ("CXXConstructExpr", "CXXTemporaryObjectExpr") else []
+            size_txt = txt(ca[0]) if ca else None
+        nmax_ok = size_txt is not None and "NItemsMax(" in xrender(g, ca[0], True) if size_txt else False
+        bad = []
+        if not subs:
+            bad.append("no subscript by the entry's index found")
+        for n in subs:
+            ix = None
+            for x in walk(call_args(n)[1]):
+                if x["k"] == "MemberExpr" and x.get("name") == "first":
+                    ix = txt(x)
+            fa = norm_facts(g, n, canon=True)
+            lo = (ix + "<0", False) in fa or ("0<=" + ix, True) in fa
+            hi = any(t == ix + "<" + size_txt and pol for t, pol in fa) or any(t == size_txt + "<=" + ix and not pol for t, pol in fa) if size_txt else False
+            if not (lo and hi):
+                bad.append("`%s` is reached with index `%s` not known to be in [0, %s) (lower %s, upper %s)" % (render(n)[:50], ix, size_txt, lo, hi))
+        h1.check(nmax_ok and not bad, "handler-suffix-index|%s" % tag, short_loc(g.loc),
+                 "every store of a suffix entry is guarded by 0 <= index < NItemsMax(kind), the size of the value vector",
+                 "%s: an entry whose index equals the item count (or is negative) is stored outside the vector instead of being rejected as a bad suffix" %
+                 ("; ".join(bad[:2]) or "the value vector is not sized by NItemsMax(kind)"))
 
     # ---- F1: file text never becomes a printf format -------------------------------------------------
     f1 = rep.rule("C14.F1", "WHO", "the error formatter (vsnprintf) receives literal formats only; text read from the file is passed as an argument, and the conversions match the arguments", floor=8)
